@@ -42,8 +42,9 @@ ASSUMPTIONS = [
     '__new__ derives from (counts, Q, R) and that Q,R >= 0, q_i, r_i > 0, index strictly increasing',
     'model-vs-code comparison of gamma is relative 1e-9 (numba/BLAS summation order, libm exp/log/pow); argument arrays, '
     'freshness and exact-one clauses are compared exactly',
-    'Gibbs-Duhem for the concrete UNIFAC expressions is NOT decided by proof (gibbs_duhem_euler is the general theorem); '
-    'on the real code it is a finite-difference search oracle: |sum x_i dln(gamma_i)/ds| <= 2e-6*(1 + sum x_i |dln(gamma_i)/ds|), '
+    'Gibbs-Duhem for the concrete UNIFAC / modified-UNIFAC expressions is proved for the model (gibbs_duhem_concrete, '
+    'gibbs_duhem_unifac_all: ln gamma is the gradient of a degree-one homogeneous excess function, arbitrary tables); on the real '
+    'code it is additionally watched by a finite-difference search oracle: |sum x_i dln(gamma_i)/ds| <= 2e-6*(1 + sum x_i |dln(gamma_i)/ds|), '
     'central differences with h = 1e-5*min(x_i over varied chemicals), points with all varied x_i >= 1e-3',
     'the model is written to the REPAIRED behaviour of gamma_UNIFAC / loggammacs_UNIFAC / the xsum==0 branch '
     '(fixes_proposed/C16-1..3.md)',
@@ -113,7 +114,7 @@ def setup():
 
 def budget(tier):
     return {'quick': dict(seconds=70, cases=1600, shrink_s=20, search_s=10),
-            'thorough': dict(seconds=420, cases=24000, shrink_s=40, search_s=30)}[tier]
+            'thorough': dict(seconds=480, cases=16000, shrink_s=40, search_s=30)}[tier]
 
 
 # --------------------------------------------------------------------------
